@@ -9,11 +9,11 @@ from harness.memrun import TICK
 ID = "C06"
 RUN_MODULE = "Model.Lock Run.C06"
 EXPLAIN = "explain"
-RULE = ("2-4 real asyncio tasks entering sections guarded by cache.lock / @cache.locked / backend.lock on 1-2 keys, lock ttl 1-2 s, section "
+RULE = ("2-4 real asyncio tasks entering sections guarded by cache.lock / @cache.locked on a coroutine function / @cache.locked on an async generator / backend.lock on 1-2 keys, lock ttl 1-2 s, section "
         "durations 0-3 x ttl (some overstay), wait=True (check_interval 0 or 0.125 s) and wait=False, plus unlock calls with a foreign token; "
         "every set_lock / unlock / ping of the Memory instance is gated, the schedule (which parked task runs next, when the clock advances to "
         "the next timer, which designated task gets cancelled) is a seeded list of choices - all schedules of length <= 7 for two tasks in the "
-        "thorough tier; purge task on (0.25 s) or off. Observed: every lock command with its result in execution order. non-trivial: at least "
+        "thorough tier; purge task on (0.25 s) or off. Observed: every lock command with its result in execution order, and per task how it ended (entered, LockedError, cancelled) with its number of attempts. non-trivial: at least "
         "one acquisition failed or one holder overstayed its ttl")
 TRUSTED_BASE = ["Coq 8.16.1 kernel + vm_compute", "hand-written model coq/Model/Lock.v tied by replaying the observed command trace",
                 "asyncio task switching, cancellation delivery and the finally clause of the context manager are the interpreter's; the scheduler only chooses among parked tasks",
@@ -31,7 +31,7 @@ def gen_cases(rng, tier):
         for i in range(nt):
             ttl = rng.choice([16, 32])
             tasks.append({"key": rng.choice(["L", "L", "L", "M"]), "ttl": ttl, "dur": rng.choice([0, 4, ttl - 2, ttl, ttl + 4, 3 * ttl]),
-                          "wait": rng.random() < 0.75, "ci": rng.choice([0, 2]), "via": rng.choice(["lock", "locked", "backend"]),
+                          "wait": rng.random() < 0.75, "ci": rng.choice([0, 2]), "via": rng.choice(["lock", "locked", "locked_gen", "backend"]),
                           "start": rng.choice([0, 0, 2, ttl])})
         cases.append({"tasks": tasks, "purge": rng.random() < 0.5, "foreign": rng.random() < 0.3,
                       "cancel": rng.choice([None, None, 0, 1]), "schedule": [rng.randrange(6) for _ in range(60)],
@@ -93,6 +93,12 @@ def run_impl(case):
                     if spec["via"] == "locked":
                         f = cache.locked(ttl=ttl, key=spec["key"], wait=spec["wait"], prefix="", check_interval=spec["ci"] * TICK)(lambda: section())
                         await f()
+                    elif spec["via"] == "locked_gen":
+                        async def gen():
+                            yield await section()
+                        f = cache.locked(ttl=ttl, key=spec["key"], wait=spec["wait"], prefix="", check_interval=spec["ci"] * TICK)(gen)
+                        async for _ in f():
+                            pass
                     else:
                         target = cache if spec["via"] == "lock" else mem
                         async with target.lock(spec["key"], ttl, wait=spec["wait"], check_interval=spec["ci"] * TICK):
@@ -139,7 +145,13 @@ def to_coq(case, obs):
         if obs["deadlock"]:
             tr.append((C("ForeignUnlock", Nat(1000)), True))   # never allowed: flags the run
         traces.append(tr)
-    return C("CLock", traces)
+    outcomes = (obs["result"] or {}).get("outcomes", {})
+    code = {"ok": 0, "locked": 1, "cancelled": 2}
+    pol = []
+    for i, spec in enumerate(case["tasks"]):
+        tries = [e for e in obs["events"] if e[1] == "try" and e[2] == i]
+        pol.append((bool(spec["wait"]), Nat(sum(1 for e in tries if not e[4])), Nat(len(tries)), Nat(code.get(outcomes.get(str(i)), 3))))
+    return C("CLock", traces, pol)
 
 
 def nontrivial(case, obs):
